@@ -66,6 +66,18 @@ where
     }
 }
 
+impl<G: GetAdjacencyMatrix> GetAdjacencyMatrix for Reversed<G> {
+    type AdjMatrix = G::AdjMatrix;
+    fn adjacency_matrix(&self) -> Self::AdjMatrix {
+        self.0.adjacency_matrix()
+    }
+    /// There is an edge from `a` to `b` in the reversed graph exactly when
+    /// there is an edge from `b` to `a` in the underlying graph.
+    fn is_adjacent(&self, matrix: &Self::AdjMatrix, a: Self::NodeId, b: Self::NodeId) -> bool {
+        self.0.is_adjacent(matrix, b, a)
+    }
+}
+
 impl<G: Visitable> Visitable for Reversed<G> {
     type Map = G::Map;
     fn visit_map(&self) -> G::Map {
@@ -181,4 +193,3 @@ GraphProp! {delegate_impl [[G], G, Reversed<G>, access0]}
 NodeCount! {delegate_impl [[G], G, Reversed<G>, access0]}
 EdgeCount! {delegate_impl [[G], G, Reversed<G>, access0]}
 EdgeIndexable! {delegate_impl [[G], G, Reversed<G>, access0]}
-GetAdjacencyMatrix! {delegate_impl [[G], G, Reversed<G>, access0]}
